@@ -31,6 +31,8 @@ pub struct GenOpts {
     /// Probability that computed mutation keys collide with declared ones (D3 class).
     pub p_overlap: f64,
     pub hostile_outputs: f64,
+    /// Probability that a reader asks for a hostile number of keys (-1 .. i64::MAX).
+    pub hostile_reads: f64,
 }
 
 impl Default for GenOpts {
@@ -45,6 +47,7 @@ impl Default for GenOpts {
             allow_conflicts: false,
             p_overlap: 0.03,
             hostile_outputs: 0.02,
+            hostile_reads: 0.0,
         }
     }
 }
@@ -112,10 +115,14 @@ fn gen_value(r: &mut Rng) -> Vec<Word> {
 
 /// A state read of `n` keys from `key` into fresh memory, followed by an "observed" beacon
 /// carrying the words that were read. Works on any input.
-fn reader(o: &mut Vec<Op>, r: &mut Rng, abs: Word, post: bool, contracts: &[ContentAddress]) {
+fn reader(o: &mut Vec<Op>, r: &mut Rng, abs: Word, post: bool, contracts: &[ContentAddress], hostile: f64) {
     let key = gen_read_key(r);
-    let n = *r.pick(&[0i64, 1, 1, 2, 3, 4]);
-    let room = n * 2 + n * 4 + 1;
+    let (n, room) = if r.chance(hostile) {
+        (*r.pick(&[-1i64, 5120, 5121, 6000, 1 << 20, 1 << 40, i64::MAX - 1, i64::MAX]), 40)
+    } else {
+        let n = *r.pick(&[0i64, 1, 1, 2, 3, 4]);
+        (n, n * 2 + n * 4 + 1)
+    };
     let ext = r.chance(0.4);
     // stack: [.., (contract words), key.., klen, n, addr]
     if ext {
@@ -372,16 +379,16 @@ pub fn gen_scenario(r: &mut Rng, o: &GenOpts) -> Scenario {
             if !leaf {
                 producer(&mut ops, r);
                 if r.chance(o.p_post) {
-                    reader(&mut ops, r, abs, true, &contracts_pool);
+                    reader(&mut ops, r, abs, true, &contracts_pool, o.hostile_reads);
                 }
                 if r.chance(0.2) {
-                    reader(&mut ops, r, abs, false, &contracts_pool);
+                    reader(&mut ops, r, abs, false, &contracts_pool, o.hostile_reads);
                 }
                 producer(&mut ops, r);
                 epilogue(&mut ops, abs);
             } else {
                 if r.chance(o.p_post * 0.6) {
-                    reader(&mut ops, r, abs, true, &contracts_pool);
+                    reader(&mut ops, r, abs, true, &contracts_pool, o.hostile_reads);
                 }
                 if r.chance(o.p_data_leaf) {
                     let nk = 1 + r.below(3);
